@@ -142,12 +142,15 @@ def _get_resp_headers(sock, success_statuses: tuple = SUCCESS_STATUSES) -> tuple
     status, resp_headers, status_message = read_headers(sock)
     if status not in success_statuses:
         content_len = resp_headers.get("content-length")
+        response_body = None
         if content_len:
-            response_body = sock.recv(
-                int(content_len)
-            )  # read the body of the HTTP error message response and include it in the exception
-        else:
-            response_body = None
+            try:
+                body_len = int(content_len)
+            except ValueError:
+                body_len = -1
+            if body_len >= 0:
+                # read the body of the HTTP error message response and include it in the exception
+                response_body = sock.recv(body_len)
         raise WebSocketBadStatusException(
             f"Handshake status {status} {status_message} -+-+- {resp_headers} -+-+- {response_body}",
             status,
